@@ -13,7 +13,7 @@ SPEC = {
         "Lean 4.33.0 kernel; axioms limited to propext, Classical.choice, Quot.sound (audited per theorem)",
         "hand-written model GluonModel/Model/Store.lean of onDiskStore.Set/Get/Delete/List (store/disk.go) over a directory map, tied by the `store` and `store-size` correspondence dialects (differential testing against the real store in a temp dir, not proof)",
         "hand-written transition system GluonModel/Model/StoreLock.lean of WriteControlledStore.acquireSyncRef/releaseSyncRef + sync.RWMutex + sync.Pool (no correspondence possible at that granularity without instrumenting the code; tied only by reading, and by the oracle's exclusion probe reproducing the schedule class of the witness)",
-        "facts translator harness/facts_store.go (go/ast): blockSize, header bytes, Seal/Open called with the file nonce and nil additional data, io.EOF swallowed in Get",
+        "facts translator harness/facts_store.go (go/ast): blockSize, header bytes, Seal/Open called with the file nonce and nil additional data, io.EOF swallowed in Get, a piece that does not open closes the pipe with that error (openFailureFailsPipe, syntactic recogniser of the statement after c.gcm.Open)",
         "AES-GCM (crypto/cipher), as hypotheses: Open(Seal x) = x, |Seal x| = |x| + Overhead (structure Laws); idealised integrity: Open succeeds only on outputs of Seal for the same key and nonce (structure AEAD) and the altered piece is not such an output (hypothesis Unforged)",
         "pierrec/lz4 v4 frame writer/reader, as hypotheses: reader(writer b) = b (Laws.decode_compress); the reader finishes exactly at the end mark and a frame is non-empty (structure LZ4Seq); the reader returns io.EOF on an empty source (EmptyIsEOF, observed)",
         "OS file API: regular-file reads return full pieces of blockSize+Overhead until end of file; O_TRUNC + sequential writes; os.Remove; filepath.Walk lists exactly the files of the directory",
@@ -28,5 +28,5 @@ SPEC = {
         "lock table: readers/writer exclusion per id is proved only for schedules in which releaseSyncRef is not interrupted between its decrement and its cleanup (AtomicRelease); in general it is false (theorem rw_exclusion_fails, finding C09-F4); SetUnchecked/DeleteUnchecked bypass the table and are out of scope; Go memory model (plain write `v.counter = 1` racing with atomic ops) not modelled",
         "Fallback readers (WithFallback, store/fallback_v0) are modelled as an arbitrary function and excluded (fallback = none) where a theorem needs the header check to be final; Semaphore (store/semaphore.go) only limits concurrency and is not modelled (the oracle also runs with it)",
     ],
-    "explanation": "Lean theorems over the store model for all contents of all lengths (abstract AES-GCM/LZ4 with explicit hypotheses) and over the lock-table transition system for all schedules (partial: atomic release); constants regenerated from store/disk.go; model tied to the real store by differential testing; oracle on the real store: round trips across block boundaries, every structural corruption, 8-goroutine histories, lock-table exclusion probe",
+    "explanation": "Lean theorems over the store model for all contents of all lengths (abstract AES-GCM/LZ4 with explicit hypotheses) and over the lock-table transition system for all schedules (partial: atomic release); constants regenerated from store/disk.go; model tied to the real store by differential testing; oracle on the real store: round trips across block boundaries, every structural corruption (also on contents constructed with the real compressor so that sealed block 1, 2 or 3 starts exactly at an LZ4 data-block boundary, where a damaged later block is told from a clean end of data only by the decrypt error reaching the LZ4 reader), 8-goroutine histories, lock-table exclusion probe",
 }
